@@ -296,8 +296,8 @@ def judge_c09(obs: L.Obs) -> list[tuple[str, str]]:
                 continue
             if v.closed_seq is not None and v.closed_seq < fseq:
                 continue  # the connection was already closed (gracefully) before the first fatal report
-            if type(e).__name__ == "TimeoutAPIError" and abs(((c.t_ret or 0) - c.t_call) - (BOUNDS.get(c.name) or 30.0)) < 1e-6:
-                continue  # its own timeout fired in the very same instant
+            if type(e).__name__ == "TimeoutAPIError" and abs((c.t_ret or 0) - ft) < 1e-9:
+                continue  # its own timeout fired in the very same instant as the fatal error
             out.append((f"C09/first-cause-masked/{c.name}", f"{c.name} failed with {e!r} although the first fatal cause was {F1!r} (cause {cause_tag(obs)})"))
     return out
 
@@ -470,6 +470,9 @@ def connect_fault_sweep(ctx: Ctx, prop: str) -> None:
         ("tcp-dual-v4-hang-v6-ok", S(addresses=["10.0.0.7", "fd00::1"], tcp={"10.0.0.7": ["hang"]})),
         ("tcp-dual-both-refuse", S(addresses=["10.0.0.7", "fd00::7"], tcp={"10.0.0.7": ["refuse", 0.01], "fd00::7": ["unreach", 0.02]})),
         ("tcp-slow-ok", S(tcp={"10.0.0.1": ["ok-slow"]})),
+        ("setsockopt-nodelay-fails", S(sockopt_fail="nodelay")),
+        ("setsockopt-rcvbuf-always-fails", S(sockopt_fail="rcvbuf")),
+        ("setsockopt-quickack-unsupported", S(sockopt_fail="quickack")),
         ("silent-device-plain", S(device={"answer_hello": False})),
         ("silent-device-noise", S(framing="noise", device={"noise_silent": True})),
         ("no-connect-response", S(device={"answer_connect": False})),
